@@ -17,7 +17,7 @@ import itertools
 from typing import Any
 
 from hypothesis import strategies as st
-from hypothesis.stateful import RuleBasedStateMachine, initialize, rule
+from hypothesis.stateful import RuleBasedStateMachine, initialize, precondition, rule
 
 from vf import spec as S, specgen
 from vf.harness import Fuel, FuelExhausted, apply_edits, perturb_strategies
@@ -36,6 +36,10 @@ ASSUMPTIONS = [
 ]
 
 CAP = 30
+CREP_EVERY = 4  # every 4th generated machine works on CREP_SPEC
+CREP_SPEC = {"rules": [["start", ["seq", [["nt", "len"], ["nt", "items"]]]], ["len", ["alt", [["lit", "1"], ["lit", "2"], ["lit", "3"]]]],
+                       ["items", ["crep", ["nt", "item"], "int(<len>)"]], ["item", ["alt", [["lit", "a"], ["lit", "b"]]]]],
+             "mode": "text", "alphabet": "ab"}
 
 
 def shards(tier: str) -> int:
@@ -80,6 +84,14 @@ class World:
             return list(itertools.islice(g.parse_forest(word, start, include_controlflow=True), k or CAP))
         if kind == "api":
             return list(itertools.islice(f.parse(word), k or CAP))
+        if kind == "hook":
+            # the request the protocol code makes: parse below a hook-in parent that already holds the length field
+            from fandango.language.symbols import NonTerminal, Terminal
+            from fandango.language.tree import DerivationTree
+
+            hook = DerivationTree(NonTerminal("<start>"), [DerivationTree(NonTerminal("<len>"), [DerivationTree(Terminal(str(k)))])])
+            t = g.parse(word, start, hookin_parent=hook)
+            return [] if t is None else [t]
         raise ValueError(kind)
 
     def apply(self, step: list[Any], ctx: Any = None) -> list[str]:
@@ -144,8 +156,12 @@ class World:
         if kind in ("forest", "multiple", "api") and isinstance(want, list) and len(want) >= 2:
             if wkey in self.partial_done or self.edited:
                 self.nontrivial = True
-        if kind in ("first", "partial", "incomplete", "controlflow"):
+        if kind in ("first", "partial", "incomplete", "controlflow", "hook"):
             self.partial_done.add(wkey)
+        if kind == "hook":
+            self.hooked = True
+        elif getattr(self, "hooked", False) and step[2] != "start":
+            self.nontrivial = True
         if got != want:
             return [f"request {step!r} after an earlier history yields {_brief(got)}, a fresh spec object yields {_brief(want)}"]
         return []
@@ -168,6 +184,14 @@ def make_machine(ctx: Any) -> Any:
         @initialize(spec=specgen.grammars({"mode": "text", "max_rules": 3, "regex": "none"}),
                     ambiguous=st.booleans(), edits=st.lists(perturb_strategies(), min_size=2, max_size=2))
         def setup(self, spec: dict[str, Any], ambiguous: bool, edits: list[Any]) -> None:
+            if CREP_EVERY and (len(repr(spec)) + len(repr(edits))) % CREP_EVERY == 0:
+                # a spec with a computed repetition: requests below a hook-in parent and for the inner symbol alone
+                self.spec = CREP_SPEC
+                self.world = World(CREP_SPEC)
+                self.words = ["aba", "ab", "3aba", "2ab", "1a", "b", "2aba", ""]
+                self.starts = ["start", "items"]
+                self.crep = True
+                return
             if ambiguous:
                 # make <start> ambiguous: the same body reachable through two alternatives
                 name, rhs = spec["rules"][0]
@@ -215,6 +239,11 @@ def make_machine(ctx: Any) -> Any:
         @rule(i=st.integers(0, 50), k=st.sampled_from([None, 1]))
         def api(self, i: int, k: Any) -> None:
             self._do(["api", self.words[i % len(self.words)], "start", k])
+
+        @precondition(lambda self: getattr(self, "crep", False))
+        @rule(i=st.integers(0, 50), n=st.integers(1, 3))
+        def hook(self, i: int, n: int) -> None:
+            self._do(["hook", self.words[i % len(self.words)], "items", n])
 
         @rule(seed=st.integers(0, 1000))
         def fuzz(self, seed: int) -> None:
